@@ -1147,6 +1147,11 @@ class Interp:
         """Equality of two partly abstract strings (flattened pieces: literal text or an abstract piece such as the text of
         a number).  Decided when a literal mismatch, or a literal that cannot be the text of a number, settles it."""
         xs, ys = [t for t in fa_ if t != ""], [t for t in fb_ if t != ""]
+        # literal text at the end: a mismatch within the common length settles it whatever precedes
+        if xs and ys and isinstance(xs[-1], str) and isinstance(ys[-1], str):
+            k = min(len(xs[-1]), len(ys[-1]))
+            if xs[-1][len(xs[-1]) - k:] != ys[-1][len(ys[-1]) - k:]:
+                return False
         while xs or ys:
             if xs and ys and isinstance(xs[0], str) and isinstance(ys[0], str):
                 k = min(len(xs[0]), len(ys[0]))
